@@ -1,15 +1,16 @@
 """C09 — the control-flow graph matches x86 control flow."""
 
 def run(ctx):
-    if not ctx.build_harness(['c09.go']):
+    if not ctx.build_harness(["c09.go", "gen_branchops.go"]):
         return
+    ctx.regen([("Gen/BranchOps", "BranchOps")])
     ctx.forbidden_scan()
     if not ctx.build_driver():
         return
-    if ctx.lake_each(["AvoVerif.Props.C09"]):
+    if ctx.lake_each(["AvoVerif.Props.C09", "AvoVerif.Props.C09Tables"]):
         ctx.audit("C09")
     if ctx.tier == "thorough":
-        ctx.leanchecker(["AvoVerif.Props.C09"])
+        ctx.leanchecker(["AvoVerif.Props.C09", "AvoVerif.Props.C09Tables"])
     nt = lambda req, resp: " L " in req and " I 1 " in req
     ctx.run_corpus("c09", nontrivial=nt)
     if ctx.replay:
